@@ -1040,6 +1040,38 @@ type nsDst4 struct { // lacks the first and the third
 	Labels map[mkStr]string `codec:"d_labels"`
 }
 
+// destinations that collect the fields they do not know (codec.MissingFielder): the
+// NAME handed to CodecMissingField is a view of the reader's buffer until copied
+type nsDstMF1 struct { // knows only the second field
+	Scores  map[string]int         `codec:"b_scores"`
+	Missing map[string]interface{} `codec:"-"`
+}
+
+func (x *nsDstMF1) CodecMissingField(field []byte, value interface{}) bool {
+	if x.Missing == nil {
+		x.Missing = map[string]interface{}{}
+	}
+	x.Missing[string(field)] = value
+	return true
+}
+func (x *nsDstMF1) CodecMissingFields() map[string]interface{} { return x.Missing }
+
+type nsDstMF2 struct { // knows only the last field
+	Tail    []string               `codec:"e_tail"`
+	Missing map[string]interface{} `codec:"-"`
+}
+
+func (x *nsDstMF2) CodecMissingField(field []byte, value interface{}) bool {
+	if x.Missing == nil {
+		x.Missing = map[string]interface{}{}
+	}
+	x.Missing[string(field)] = value
+	return true
+}
+func (x *nsDstMF2) CodecMissingFields() map[string]interface{} { return x.Missing }
+
+var nsMFDsts = []reflect.Type{reflect.TypeOf(nsDstMF1{}), reflect.TypeOf(nsDstMF2{})}
+
 var nsDsts = []reflect.Type{reflect.TypeOf(nsDst1{}), reflect.TypeOf(nsDst2{}), reflect.TypeOf(nsDst3{}), reflect.TypeOf(nsDst4{}),
 	reflect.TypeOf(codec.Raw(nil)), reflect.TypeOf(map[string]codec.Raw(nil))}
 
@@ -1090,8 +1122,13 @@ func narrowStream(r *vh.Rng, n int, maxOff int, sum *vh.Summary) {
 			continue
 		}
 		t := nsDsts[r.Intn(len(nsDsts))]
+		if r.Chance(1, 3) {
+			t = nsMFDsts[r.Intn(len(nsMFDsts))]
+		}
 		if i < 2 {
 			t = nsDsts[0]
+		} else if i < 6 {
+			t = nsMFDsts[i%2]
 		}
 		mkHandle := func(rbs int) codec.Handle {
 			oo := vh.Opts{}
@@ -1474,7 +1511,7 @@ func main() {
 	cases := flag.String("cases", "/verif/build/c03/cases", "directory for the model case files")
 	flag.Parse()
 	r := vh.NewRng(vh.SeedFromEnv())
-	sum := vh.NewSummary("unit: random protocol-respecting decReaderI op lists x ReaderBufferSize {0,1,2,3,7,16,64,256,300} x MaxInitLen x plain/ByteReader x reader scripts (1-byte, chunks, zero-length runs below and above 16, data with EOF, terminal EOF or error); non-trivial = has a script or >= 8 bytes; distinct by (mode, reader shape, buffer size, last op, error class, Read calls, numread/4). api: 5 formats x random type/value/options x target (typed, Raw, interface{}) x ReaderBufferSize x reader shapes (all-at-once, 1-byte, random chunks with empty reads, data with EOF, two chunks at every offset, iotest One/Half/DataErr/Timeout readers, plain and ByteReader) x truncation at every offset with 4 endings; distinct by (format, target, kind, length/8). mapkey: 5 formats x string-keyed map types without a fast path (struct, named, pointer, array, nested-map values, named and interface keys, inside slices/structs) x every one-split, two-split and fixed-size chunk schedule of encodings up to -mapkeylen bytes x ReaderBufferSize {1,2,7,16,64,4096}, plain and ByteReader; distinct by (format, type, length/4). narrow: 5 formats (binc half the time, AsSymbols on) x a struct with string-keyed maps sharing keys in several fields decoded into structs that lack the first / first two / middle fields, into Raw and into maps of Raw x ReaderBufferSize {0,1,2,7,16,64,4096} x all-at-once, fixed chunks 1,2,3,5,7,16, random chunks with empty reads, a split at every offset, plain and ByteReader; distinct by (format, symbols, destination, length/8). numstr: json numbers (struct fields, slice elements, map values) decoded into string destinations with more input following, same reader sweep; distinct by (length/8, tags, map size). long: 5 formats x 1 KB-20 KB strings / byte strings (alone, in slices, structs, maps; typed, interface{} and Raw destinations) x ReaderBufferSize {0,1,16,300,4096} x MaxInitLen x all-at-once, fixed chunks 1,7,100,1000,1024,1500,4096 and random chunks; distinct by (format, type, destination, length/512); unit stream: every 25th case has 1.1-4.4 KB of data and reads of 700-3000 bytes")
+	sum := vh.NewSummary("unit: random protocol-respecting decReaderI op lists x ReaderBufferSize {0,1,2,3,7,16,64,256,300} x MaxInitLen x plain/ByteReader x reader scripts (1-byte, chunks, zero-length runs below and above 16, data with EOF, terminal EOF or error); non-trivial = has a script or >= 8 bytes; distinct by (mode, reader shape, buffer size, last op, error class, Read calls, numread/4). api: 5 formats x random type/value/options x target (typed, Raw, interface{}) x ReaderBufferSize x reader shapes (all-at-once, 1-byte, random chunks with empty reads, data with EOF, two chunks at every offset, iotest One/Half/DataErr/Timeout readers, plain and ByteReader) x truncation at every offset with 4 endings; distinct by (format, target, kind, length/8). mapkey: 5 formats x string-keyed map types without a fast path (struct, named, pointer, array, nested-map values, named and interface keys, inside slices/structs) x every one-split, two-split and fixed-size chunk schedule of encodings up to -mapkeylen bytes x ReaderBufferSize {1,2,7,16,64,4096}, plain and ByteReader; distinct by (format, type, length/4). narrow: 5 formats (binc half the time, AsSymbols on) x a struct with string-keyed maps sharing keys in several fields decoded into structs that lack the first / first two / middle fields, into Raw, into maps of Raw and into MissingFielder structs (the names and values reported to CodecMissingField are compared) x ReaderBufferSize {0,1,2,7,16,64,4096} x all-at-once, fixed chunks 1,2,3,5,7,16, random chunks with empty reads, a split at every offset, plain and ByteReader; distinct by (format, symbols, destination, length/8). numstr: json numbers (struct fields, slice elements, map values) decoded into string destinations with more input following, same reader sweep; distinct by (length/8, tags, map size). long: 5 formats x 1 KB-20 KB strings / byte strings (alone, in slices, structs, maps; typed, interface{} and Raw destinations) x ReaderBufferSize {0,1,16,300,4096} x MaxInitLen x all-at-once, fixed chunks 1,7,100,1000,1024,1500,4096 and random chunks; distinct by (format, type, destination, length/512); unit stream: every 25th case has 1.1-4.4 KB of data and reads of 700-3000 bytes")
 	unitStream(r.Fork(), *nUnit, *cases, sum)
 	apiStream(r.Fork(), *nAPI, *maxOff, sum)
 	mapKeyStream(r.Fork(), *nMapKey, *mapKeyLen, sum)
